@@ -37,6 +37,8 @@ Meaning of the Rust constructs (combinators: lean/KestrelModel/RsStr.lean and Rs
   for x in l            -> `RsStr.forIn l (fun x state => body) state` over the tuple of outer variables the body assigns
                            (both tuples: ordered by the Lean type of the variables, then by first occurrence inside the statement /
                            loop, so that permuting the declarations in front of it, or renaming them, changes nothing)
+  let (a, b) = match / if  -> like `let v = match ..` below with the tuple pattern as the binder: `let (a, b) := (match ..)`, or, when an arm
+                           leaves the function (`P => { return .. }`), `Flow.bind (match .. | P => Flow.ret .. | Q => Flow.next (x, y)) fun (a, b) =>`
   if / match as a value -> as a `let` initialiser or as the result of the function (`fn f() -> T { ..; match x { A => v, .. } }`):
                            the Lean `if` / `match` whose branches end in the values
   unwrap / expect       -> `RsStr.unwrap_opt` / `RsStr.unwrap_res` (Rust panic totalised with `default`); sites listed in the header
@@ -1825,7 +1827,23 @@ class FnTr:
 
     def letpat_stmt(self, s, rest, fin, ctx):
         """`let (a, b) = e;`  ->  `let (a, b) := e`
-           `let PAT = e else { diverges };`  ->  `Flow.bind (match e with | PAT => Flow.next (vars of PAT) | _ => else block) fun vars =>`"""
+           `let PAT = e else { diverges };`  ->  `Flow.bind (match e with | PAT => Flow.next (vars of PAT) | _ => else block) fun vars =>`
+           `let (a, b) = match e { P => (x, y), Q => { return .. } };` (also `if`)  ->  as `let v = match ..` (let_stmt) with the
+           pattern as the binder: `Flow.bind (match e with | P => Flow.next (x, y) | Q => Flow.ret ..) fun (a, b) =>`"""
+        vinit = s.init
+        while vinit.kind == 'paren': vinit = vinit.e
+        if vinit.kind in ('match', 'if', 'matchs') and s.els is None:
+            if not self.irrefutable(s.pat): self.bad('refutable pattern in a `let` without `else`', s.line)
+            fx = has_effects(vinit)
+            lines, ty = self.value_lines(vinit, Ctx(fx, ctx.loop_state if fx else None))
+            if s.pat.kind == 'ptuple' and head(resolve(ty)) != 'tuple':
+                self.bad('tuple pattern in a `let` whose `match` / `if` initialiser has no arm yielding a tuple', s.line)
+            pat = self.pattern(s.pat, ty)               # declares the variables of the pattern for the rest of the block
+            names = self.pat_vars(s.pat, [])
+            if len(set(names)) != len(names): self.bad('a variable occurs twice in a pattern', s.line)
+            if fx:
+                return ['Flow.bind ('] + ind(lines) + [f') fun {pat} =>'] + self.seq(rest, fin, ctx)
+            return [f'let {pat} := ('] + ind(lines) + [')'] + self.seq(rest, fin, ctx)
         init = self.expr(s.init)
         if s.els is None:
             if not self.irrefutable(s.pat): self.bad('refutable pattern in a `let` without `else`', s.line)
